@@ -233,38 +233,51 @@ fn gen_op(rng: &mut Rng, sc: &ThreadScenario, pal: &[u8], depth: usize) -> Op {
 pub fn gen_race(seed: u64, idx: u64) -> ThreadScenario {
     let mut rng = Rng::for_run(seed, 173, idx);
     let r = &mut rng;
-    let pal: Vec<u8> = if r.chance(1, 2) { vec![b'a', b'b'] } else { vec![b'a', b'b', b'c'] };
-    let np = r.range(3, 5);
-    let base: Vec<u8> = (0..6).map(|_| *r.pick(&pal)).collect();
-    let mut patterns: Vec<Vec<u8>> = Vec::new();
-    for i in 0..np {
-        let p: Vec<u8> = match r.below(3) {
-            0 => base[..r.range(2, 5)].to_vec(),
-            1 => base[r.range(0, 3)..].to_vec(),
-            _ => (0..r.range(2, 5)).map(|_| *r.pick(&pal)).collect(),
-        };
-        if !patterns.contains(&p) || i == 0 {
-            patterns.push(p);
-        }
-    }
-    let (surface, kind, packed) = match idx % 7 {
+    let (surface, kind, packed) = match idx % 9 {
         0 => (Surface::Top, Kind::Noncontiguous, false),
         1 => (Surface::Noncontiguous, Kind::Auto, false),
         2 => (Surface::Top, Kind::Contiguous, false),
         3 => (Surface::Contiguous, Kind::Auto, false),
         4 => (Surface::Top, Kind::Auto, false),
-        5 => (Surface::Top, Kind::Auto, true),
-        _ => (Surface::Top, Kind::Dfa, false),
+        5 | 7 => (Surface::Top, Kind::Auto, true),
+        6 => (Surface::Top, Kind::Dfa, false),
+        // leftmost searcher over a wide alphabet: the builder picks the packed prefilter
+        _ => (Surface::Top, Kind::Noncontiguous, false),
     };
+    let wide = packed || idx % 9 == 8;
+    let pal: Vec<u8> = if wide {
+        (b'a'..=b'h').collect()
+    } else if r.chance(1, 2) {
+        vec![b'a', b'b']
+    } else {
+        vec![b'a', b'b', b'c']
+    };
+    let np = if wide { r.range(4, 8) } else { r.range(3, 5) };
+    let base: Vec<u8> = (0..6).map(|_| *r.pick(&pal)).collect();
+    let mut patterns: Vec<Vec<u8>> = Vec::new();
+    for i in 0..np {
+        let mut p: Vec<u8> = match r.below(3) {
+            0 => base[..r.range(2, 5)].to_vec(),
+            1 => base[r.range(0, 3)..].to_vec(),
+            _ => (0..r.range(2, 5)).map(|_| *r.pick(&pal)).collect(),
+        };
+        if wide {
+            // distinct first bytes: per-pattern lazily built tables get many entries
+            p[0] = pal[i % pal.len()];
+        }
+        if !patterns.contains(&p) || i == 0 {
+            patterns.push(p);
+        }
+    }
     let opts = BuildOpts {
         surface,
         kind,
-        match_kind: if packed { MKind::LeftmostFirst } else { *r.pick(&[MKind::Standard, MKind::LeftmostFirst, MKind::LeftmostLongest]) },
+        match_kind: if wide { *r.pick(&[MKind::LeftmostFirst, MKind::LeftmostLongest]) } else { *r.pick(&[MKind::Standard, MKind::LeftmostFirst, MKind::LeftmostLongest]) },
         start_both: false,
         case_insensitive: false,
         dense_depth: *r.pick(&[None, Some(0), Some(1)]),
         byte_classes: true,
-        prefilter: r.chance(1, 2),
+        prefilter: wide || r.chance(1, 2),
     };
     let mut sc = ThreadScenario {
         prop: "C17".into(),
@@ -284,10 +297,22 @@ pub fn gen_race(seed: u64, idx: u64) -> ThreadScenario {
     // searches are cheap: so every thread runs several of them back to back.
     let nthreads = r.range(2, 3);
     let nhays = nthreads + 3;
-    for _ in 0..nhays {
+    // First use matters (lazily initialised state): in half of the scenarios every
+    // thread's first search runs over a short haystack (the packed searcher's slow
+    // path, no vector search), otherwise over a medium one; all threads start alike.
+    let short_first = r.chance(1, 2);
+    for i in 0..nhays {
         let mut planted = Vec::new();
-        let target = r.range(40, 72);
-        let h = gen_stream(r, &pal, &patterns, target, false, &mut planted);
+        let target = if short_first && i < nthreads { r.range(5, 14) } else { r.range(40, 72) };
+        let mut h = gen_stream(r, &pal, &patterns, target, false, &mut planted);
+        if short_first && i < nthreads && !h.is_empty() {
+            // make sure a late pattern occurs in the short haystack
+            let p = &patterns[patterns.len() - 1 - (i % patterns.len().min(2))];
+            if p.len() <= h.len() {
+                let at = r.below(h.len() - p.len() + 1);
+                h[at..at + p.len()].copy_from_slice(p);
+            }
+        }
         sc.fixed_hays.push(h);
     }
     for t in 0..nthreads {
